@@ -19,15 +19,18 @@ Inductive ty :=
 | TStruct (fields : list ty) (tail : option ty)   (* rlp:"tail" slice as last field *)
 | TPtr (t : ty)
 | TPtrNil (t : ty)              (* rlp:"nil" *)
-| TIface.
+| TIface
+| TRaw.                         (* rlp.RawValue: handled by the stream-level codec of Codec.v only; the
+                                   item-tree functions of this file reject it *)
 
 Inductive value :=
-| VNum (n : N) | VBool (b : bool) | VBytes (b : bytes) | VList (l : list value) | VNil | VItem (i : item).
+| VNum (n : N) | VBool (b : bool) | VBytes (b : bytes) | VList (l : list value) | VNil | VItem (i : item)
+| VRaw (b : bytes).
 
 (* kind of the empty value the encoder writes for a nil pointer to [t] (makePtrWriter / nilEncodingKind) *)
 Fixpoint nil_is_list (t : ty) : bool :=
   match t with
-  | TUint _ | TBig | TBool | TBytes | TByteArr _ => false
+  | TUint _ | TBig | TBool | TBytes | TByteArr _ | TRaw => false
   | TSlice _ | TArr _ _ | TStruct _ _ | TIface => true
   | TPtr t' | TPtrNil t' => nil_is_list t'
   end.
@@ -136,6 +139,7 @@ Fixpoint value_eqb (a b : value) : bool :=
   | VBytes x, VBytes y => bytes_eqb x y
   | VNil, VNil => true
   | VItem x, VItem y => item_eqb x y
+  | VRaw x, VRaw y => bytes_eqb x y
   | VList x, VList y =>
     (fix go (x y : list value) : bool :=
        match x, y with
@@ -150,7 +154,7 @@ Fixpoint value_eqb (a b : value) : bool :=
 Fixpoint ty_ok (t : ty) : bool :=
   match t with
   | TUint w => (w =? 1) || (w =? 2) || (w =? 4) || (w =? 8)
-  | TBig | TBool | TBytes | TByteArr _ | TIface => true
+  | TBig | TBool | TBytes | TByteArr _ | TIface | TRaw => true
   | TSlice t' | TArr _ t' => ty_ok t'
   | TStruct fs tl => forallb ty_ok fs && match tl with Some t' => ty_ok t' | None => true end
   | TPtr t' | TPtrNil t' => ty_ok t' && match t' with TPtrNil _ => false | _ => true end
